@@ -31,6 +31,7 @@ PROPS = {
             {"test": "FuzzC02R", "fuzz": "FuzzC02R", "tiers": ["thorough"], "fuzztime": 40},
             {"test": "TestC02S", "quick": 2500, "thorough": 300000, "shards_thorough": 14},
             {"test": "FuzzC02S", "fuzz": "FuzzC02S", "tiers": ["thorough"], "fuzztime": 40},
+            {"test": "TestC06", "quick": 600, "thorough": 60000, "shards_thorough": 14},
         ],
         "rule": "Level S: the real orchestrator (LoudScheme/SilentScheme, KeyGen and Sign) with the recorder backend, N in 3..5 participants of which 1..N-2 are "
                 "Byzantine puppets (honest for the synchronisation phases; their own MPC frames optionally muted per victim), 0..2 configured "
@@ -199,7 +200,7 @@ PROPS = {
         "module": "core", "pkg": "./checks", "level": "exploration",
         "jobs": [
             {"test": "TestC18Recon", "quick": 1, "thorough": 1, "shards_thorough": 14},
-            {"test": "TestC18Cross", "quick": 1, "thorough": 1, "shards_thorough": 14},
+            {"test": "TestC18Cross", "quick": 1, "thorough": 1, "shards_thorough": 14, "env_thorough": {"VERIF_CASE_WATCHDOG": "3000"}, "timeout_thorough": 7200},
         ],
         "rule": "Public API only. TestC18Recon: fresh random polynomials from the exported SSS.Gen per (backend,n,t,L); the shares are wrapped into the "
                 "library's stored-data format; for EVERY subset of size >= t (BLS n<=8, PS n<=5; thorough 10 / 6) in ascending, descending and rotated "
